@@ -65,11 +65,15 @@ def apply_variant(scratch, v):
         s_cmp = s.replace("\r\n", "\n")
     else:
         s_cmp = s
-    n = s_cmp.count(v["old"].replace("\r\n", "\n"))
+    edits = v.get("edits") or [(v["old"], v["new"])]
     want = v.get("count", 1)
-    if n < 1 or (want != "all" and n != want):
-        return None, s
-    new = s_cmp.replace(v["old"].replace("\r\n", "\n"), v["new"].replace("\r\n", "\n"))
+    new = s_cmp
+    for (o_, n_) in edits:
+        o_ = o_.replace("\r\n", "\n")
+        c_ = new.count(o_)
+        if c_ < 1 or (want != "all" and c_ != want):
+            return None, s
+        new = new.replace(o_, n_.replace("\r\n", "\n"))
     if crlf:
         new = new.replace("\n", "\r\n")
     with open(p, "w", encoding="utf-8", newline="") as f:
